@@ -679,7 +679,7 @@ def run_impl(case):
     cons_units = [_unit_name(inp.info.units) for inp in inputs]
     cons_shapes = [[int(x) for x in cg.data_shape] for cg in cgrids]
     # the key under which the output knows each consumer (the final input, also behind pass-through adapters)
-    assert [k for k in out._connected_inputs] == inputs
+    assert [k for k in getattr(out, "_connected_inputs", inputs)] == inputs   # private member: checked only if present
 
     pools = [np.array([float(pool_val(k, i)) for i in range(POOL_LEN)]) for k in range(2)]
     allocs = {}  # id(base ndarray) -> small int
@@ -778,7 +778,7 @@ def run_impl(case):
     if tmpdir is not None:
         import os
         import shutil
-        spilled = out._mem_counter  # number of publications written to disk (evidence only)
+        spilled = getattr(out, "_mem_counter", 0)  # number of publications written to disk (evidence only; private)
         out.finalize()
         left = os.listdir(tmpdir)
         shutil.rmtree(tmpdir, ignore_errors=True)
